@@ -1563,7 +1563,16 @@ def _read_from_str(item):
                     err("loop header %s" % expr_text(it))
                 loop_seen = True
                 # invariant at loop entry
-                sid = [k for k, v in env.items() if v[0] == "id" and v[1:] == ("const", 0)]
+                assigned = set()
+
+                def visit(n):
+                    if n.get("k") == "assign" and _is_path(n["l"]):
+                        assigned.add(n["l"]["p"])
+                ordered_walk(e["body"], visit)
+                # loop-carried ids: those assigned in the body; they must hold NFAStateId(0) == NFAStateId(index) at entry
+                sid = [k for k, v in env.items() if v[0] == "id" and k in assigned]
+                if any(env[k][1:] != ("const", 0) for k in sid):
+                    err("a loop-carried state id does not start at NFAStateId(0)")
                 pre = {k: v for k, v in env.items()}
                 pend = [k for k, v in env.items() if v[0] == "state"]
                 if len(pend) != 1 or env[pend[0]][1]:
@@ -1676,6 +1685,10 @@ def _read_merge_states(item):
             if _is_path(x, off) and y.get("k") == "field" and y["name"] == "0" and _is_path(y["e"], var):
                 return True
         return False
+    def addends(e):
+        if e.get("k") == "bin" and e["op"] == "+":
+            return addends(e["l"]) + addends(e["r"])
+        return [e]
     outer = [st["e"] for st in body if st["k"] == "expr" and st["e"]["k"] == "for"]
     if not need(len(outer) == 1, "one loop over the operands"):
         return facts, problems
@@ -1720,11 +1733,12 @@ def _read_merge_states(item):
             elif e["k"] == "for":
                 inner = (i, e)
             elif e["k"] == "bin" and e["op"] == "+=" and _is_path(e["l"], off):
-                offset_updates.append((i, e["r"]))
+                offset_updates.append((i, addends(e["r"])))
             elif e["k"] == "assign" and _is_path(e["l"], off):
-                r = e["r"]
-                if r["k"] == "bin" and r["op"] == "+" and _is_path(r["l"], off):
-                    offset_updates.append((i, r["r"]))
+                terms = addends(e["r"])
+                mine = [x for x in terms if _is_path(x, off)]
+                if len(mine) == 1:
+                    offset_updates.append((i, [x for x in terms if x is not mine[0]]))
                 else:
                     offset_updates.append((i, None))
             elif e["k"] in ("continue", "break", "return"):
@@ -1812,8 +1826,8 @@ def _read_merge_states(item):
     good = False
     if len(offset_updates) == 1 and offset_updates[0][0] > ii:
         r = offset_updates[0][1]
-        if r is not None and r.get("k") == "bin" and r["op"] == "+":
-            for x, y in ((r["l"], r["r"]), (r["r"], r["l"])):
+        if r is not None and len(r) == 2:
+            for x, y in ((r[0], r[1]), (r[1], r[0])):
                 if _is_path(x, max_id) and _int_lit(y) is not None and _int_lit(y) >= 1:
                     good = True
     need(good, "offset advances by max_id + 1 after each operand (strictly increasing, disjoint id ranges)")
